@@ -32,7 +32,7 @@ KMAX = 1e8
 
 def floors(tier):
     return {"gcp_judged": 3000, "outward_on_bound": 800, "breakpoints_crossed_inputs": 800, "c_checked": 1500,
-            "intercepted_calls": 200, "tie_inputs": 600, "inputs_with_theta_exactly_one": 40, "inputs_with_empty_memory_and_theta_not_one": 100, "grazing_inputs": 10000, "inputs_with_direction_exactly_orthogonal_to_the_memory": 300, "inputs_with_models_used_in_turn": 800, "grazing_inputs_after_crossed_breakpoints": 5000, "runs_with_objective_redefined": 40, "inputs_through_bound_arrays_refilled_in_place_after_an_unconstrained_call": 500, "direct_calls_traced_through_a_debug_level_logger": 2000, "direct_calls_traced_through_an_info_level_logger": 1000, "runs_traced_through_a_debug_level_logger": 10, "runs_with_objective_redefined_between_checkpoint_and_restart": 15, "__nontrivial__": 200}
+            "intercepted_calls": 200, "tie_inputs": 600, "inputs_with_theta_exactly_one": 40, "inputs_with_empty_memory_and_theta_not_one": 100, "grazing_inputs": 10000, "inputs_with_direction_exactly_orthogonal_to_the_memory": 300, "inputs_with_models_used_in_turn": 800, "grazing_inputs_after_crossed_breakpoints": 5000, "runs_with_objective_redefined": 40, "inputs_through_bound_arrays_refilled_in_place_after_an_unconstrained_call": 500, "direct_calls_traced_through_a_debug_level_logger": 2000, "direct_calls_traced_through_an_info_level_logger": 1000, "runs_traced_through_a_debug_level_logger": 10, "runs_with_a_user_step_cap": 10, "runs_with_objective_redefined_between_checkpoint_and_restart": 15, "__nontrivial__": 200}
 
 
 def exhaustive(tier):
@@ -754,6 +754,9 @@ def run(spec):
                 del n0
 
             cfg = dict(jac="callable", maxcor=spec["maxcor"], maxiter=spec["maxiter"], ftol=0.0, gtol=1e-10, maxfun=3000, eps_SY=spec.get("eps_SY", 2.2e-16))
+            if int(P.spec["seed"]) % 4 == 2:
+                cfg["max_steplength"] = float([0.1, 0.5, 1.0, 0.05][int(P.spec["seed"]) // 4 % 4])  # the user's cap on the line-search step (no business of the Cauchy search)
+                out.count("runs_with_a_user_step_cap")
             if int(P.spec["seed"]) % 3 == 1:
                 cfg.update(logger=True, iprint=[101, 1000, 99][int(P.spec["seed"]) % 9 // 3])  # traced through the user's (DEBUG-level) logger
                 out.count("runs_traced_through_a_debug_level_logger")
